@@ -20,9 +20,10 @@ _ABCI_TRUSTED = [
 PROPS = {
     "C05": {
         "level": "proof",
-        "lean_modules": ["Astria.Abci.Model", "Astria.Abci.Theorems", "Astria.Properties.C05"],
-        "theorems": ["Astria.C05_fingerprint_sound", "Astria.C05_path_independence_partial", "Astria.C05_no_split_failure_partial",
-                     "Astria.C05_process_agrees_with_finalize", "Astria.C05_dirty_state_irrelevant",
+        "lean_modules": ["Astria.Abci.Model", "Astria.Abci.Theorems", "Astria.Abci.Examples", "Astria.Properties.C05"],
+        "theorems": ["Astria.C05_fingerprint_sound", "Astria.C05_process_agrees_with_finalize",
+                     "Astria.C05_path_independence_partial", "Astria.C05_no_split_failure_partial",
+                     "Astria.C05_prepare_coherent_of_constructible",
                      "Astria.C05_path_dependence_counterexample", "Astria.C05_prepare_incoherence_counterexample"],
         "harnesses": ["abci"],
         "monitors": ["path_independence"],
@@ -61,7 +62,7 @@ PROPS = {
     },
     "C06": {
         "level": "proof",
-        "lean_modules": ["Astria.Abci.Model", "Astria.Abci.Theorems", "Astria.Properties.C06"],
+        "lean_modules": ["Astria.Abci.Model", "Astria.Abci.Theorems", "Astria.Abci.Examples", "Astria.Properties.C06"],
         "theorems": ["Astria.C06_prepare_within_limits", "Astria.C06_prepare_group_order", "Astria.C06_prepare_only_nonfatal",
                      "Astria.C06_prepare_then_process_accepts_partial", "Astria.C06_process_rejects",
                      "Astria.C06_process_accept_sound", "Astria.C06_prepare_process_disagree_counterexample",
